@@ -14,10 +14,13 @@ def run(vc, tier):
     else:
         c.run_vx_unit('c12-pool', SRC, 'sched-asan', ['--ops', 3, '--threads', 3, '--P', 2, '--D', 2, '--exec-timeout', 10000], share=0.5, **kw)
         c.run_vx_unit('c12-pool-cached', SRC, 'sched-asan', ['--ops', 3, '--threads', 2, '--cache', 1, '--spurious', 1, '--exec-timeout', 10000], share=0.9, **kw)
+    # unsynchronised accesses: the same programs in the sched-tsan build (race detection inside every explored schedule, see C11)
+    TSAN = {'TSAN_OPTIONS': 'halt_on_error=1:report_signal_unsafe=0:die_after_fork=0:second_deadlock_stack=0'}
+    c.run_vx_unit('c12-race', SRC, 'sched-tsan', ['--ops', 3, '--threads', 2, '--P', 1 if tier == 'quick' else 2, '--D', 0 if tier == 'quick' else 1, '--exec-timeout', 60000], share=0.9, env=TSAN, **kw)
     c.states = sum(r.done.get('executions', 0) for _, r, _ in c.units)
     c.transitions = sum(r.stats.get('sched_points', 0) for _, r, _ in c.units)
     c.extra['blocking_waits'] = sum(r.stats.get('blocking_waits', 0) for _, r, _ in c.units)
     c.extra['states_note'] = 'states = complete schedules executed (stateless exploration); transitions = scheduling points taken over all schedules'
-    c.assumptions = ['sequential consistency between synchronisation points (data races are looked for separately, see C11 TSan pass)',
+    c.assumptions = ['sequential consistency between synchronisation points (unsynchronised accesses are decided by ThreadSanitizer inside every explored schedule of the sched-tsan unit; happens-before comes from the modelled mutexes only)',
                      'posting jobs use tryAdd only, so every program of the grammar is deadlock-free on an ideal bounded pool and any deadlock found is the implementation\'s']
     return c.finish()
